@@ -42,6 +42,12 @@ def main(tier, only=None):
     if not only:
         from . import c03a
         extra = c03a.run(tier)
+        # rules whose Jacobian has entries 0 / +-1 only, fed cotangents spanning 40 orders of magnitude (float64 probe)
+        from .. import enga
+        from . import pinned_probe
+
+        enga.init()
+        extra = list(extra) + pinned_probe.run_linear_extreme()
     return chprop.finish(
         ID, tier, res, t0,
         functions=["autograd.util:toposort", "autograd.core:make_vjp", "autograd.core:backward_pass", "autograd.core:VJPNode.__init__", "autograd.core:defvjp.vjp_argnums",
